@@ -603,6 +603,13 @@ func genC11(c *Ctx) {
 	for i := 0; i < c.N(40, 600); i++ {
 		lens = append(lens, r.Intn(0x20100))
 	}
+	// far beyond the limit: every power of two up to 2^26 and its neighbours, and lengths whose bits 17..23 are
+	// clear (a length check done on a truncated copy of the length would let these through); Go side only
+	for k := 18; k <= 26; k++ {
+		for _, d := range []int{-1, 0, 1, 5, 0x12345} {
+			c.Check("c11.frame", L(I(int64(1<<uint(k)+d)), I(int64(k))))
+		}
+	}
 	for _, l := range lens {
 		fill := r.Byte()
 		c.Check("c11.frame", L(I(int64(l)), I(int64(fill))))
